@@ -32,6 +32,9 @@ CHECKS = {
  "C11": dict(technique="property-based fuzzing (proptest): grammar-generated documents with character-level mutation, stale-position histories, fault-injected trees; no-panic / one-response-per-request / fault-isolation oracles",
              text="Generated-input search for crashes: every public library entry point under catch_unwind, the real server over stdio with liveness probe, scans of trees with injected faults compared per file with the fault-free scan. Exploration only; libFuzzer campaign in the thorough tier when built.",
              note="trusted: release profile equals the shipped configuration; watchdog expiry without panic evidence is inconclusive", ref="DESIGN.md 4 C11", engine="vengine"),
+ "C15": dict(technique="differential property testing (proptest grammar generator) of every LSP range against CPython tokenize/ast token positions in UTF-16 units",
+             text="Generated-input search over position-stressing documents served by the real binary; oracle is the token table computed independently by CPython, plus structural LSP rules (inside document, start<=end, selection inside range, no duplicates). Exploration only.",
+             note="trusted: CPython 3.11 tokenize/ast; the LSP client in engine/src/lsp.rs", ref="DESIGN.md 4 C15", engine="vengine"),
 }
 PENDING = {
 }
